@@ -115,10 +115,10 @@ def build_tokens(m, spec):
     out = []
     for i, w in enumerate(spec):
         if w in ('T', 'F'):
-            c = mod.classes['_true' if w == 'T' else '_false']
+            c = m.cls(MOD, '_true' if w == 'T' else '_false')
             out.append(A.Obj('%s%d' % (w, i), {'catcode': None, 'nodeName': '#text'}, cls=c))
         elif w in ('not', 'and', 'or', 'NOT', 'AND', 'OR'):
-            c = mod.classes[w if w.isupper() else '_' + w]
+            c = m.cls(MOD, w if w.isupper() else '_' + w)
             out.append(A.Obj('%s%d' % (w, i), {'catcode': None, 'nodeName': w}, cls=c))
         elif w in ('(', ')'):
             out.append(A.Obj('%s%d' % (w, i), {'catcode': None, 'nodeName': w}, cls=Command))
